@@ -3,27 +3,27 @@
 Oracle is model-free: it only counts and orders result codes and watches which input offset is handed
 out when."""
 import itertools
-from .. import spec as S, gen as G, ref
+from .. import spec as S, gen as G, ref, fuzz
 from ..common import Result, viol
 from ..trace import split_units
 
 ID = "C01"
 LEVEL = "exploration"
 WORLDS = [(1, "plain")]
-BUDGET = {"quick": dict(cases=1200), "thorough": dict(cases=25000)}
+BUDGET = {"quick": dict(cases=1200, fuzz_s=8), "thorough": dict(cases=25000, fuzz_s=90)}
 MIN_NONTRIVIAL = {"quick": 300, "thorough": 3000}
 RULE = ("Hypothesis byte-backed generator: table of 1-12 commands built from shared stems (ambiguous / unique / exact "
         "abbreviations), all handler subsets, scripts of 0-3 NEXT/DATA_NEXT then a terminal code, command capacity 6-64, "
         "1-12 lines from a line grammar each optionally broken at a generated position with a syntactically valid command "
         "as tail text, LF/CRLF, stray CRs, random io schedule; plus an enumerated sweep of all registration orders of "
-        "every <=4-command table over the +T/+TA/+TB/+TAB family x typed prefix x suffix. Non-trivial = at least 2 "
+        "every <=4-command table over the +T/+TA/+TB/+TAB family x typed prefix x suffix; plus a libFuzzer campaign (world/fuzz_c01.c: structured descriptor decode, raw input bytes, streaming result-code monitor inside the target; its non-trivial inputs = at least 2 terminated non-blank lines, counted as distinct input hashes per worker). Non-trivial = at least 2 "
         "non-blank lines and at least one broken line with >=1 byte after the break; distinct by case hash.")
 ASSUMPTIONS = ["handlers eventually return a terminal code (finite scripts, no HOLD)",
                "payload alphabets are harness-controlled: no name/description/tag equals OK or ERROR or contains CR/LF",
                "io read reports 'nothing' as 0; io write refuses with 0, -1 or 2",
                "descriptor in the supported domain: command capacity >= 6 and >= ceil(commands/4)"]
 BLOB = (300, 1400)
-TECHNIQUE = "Hypothesis property-based testing (byte-backed structured generator, shrinking) + enumerated sweep, model-free result-code/read-offset oracle over the io trace"
+TECHNIQUE = "Hypothesis property-based testing (byte-backed structured generator, shrinking) + enumerated sweep + libFuzzer campaign, model-free result-code/read-offset oracle over the io trace"
 LEVEL_TEXT = ("Generated-input search: for every generated table/input/schedule the io trace is checked against a model-free "
               "invariant (one result code per non-blank line, in order, no input byte handed out before the previous answer is "
               "complete). Right level because the property quantifies over all inputs x tables x buffer sizes and an executable "
@@ -149,9 +149,14 @@ def oracle(s, t):
 
 
 def run(case, W):
-    s = case["spec"]
+    s = S.clone(case["spec"])
+    s["flags"] |= S.WF_C01MON         # the world's streaming monitor (used by the fuzz target) must agree with the oracle below
     t = W.run(s, "plain")
     v = oracle(s, t)
+    if v is None:
+        xv = [x for x in t.xviol if x[1].startswith("c01-")]
+        if xv:
+            v = ("monitor-disagrees", "the streaming C01 monitor reports %r but the trace oracle accepts the run" % (xv[:2],))
     if v:
         return Result(violation=v)
     lines, tail = ref.split_lines(s["input"])
@@ -196,6 +201,18 @@ def _sweep():
 
 def enumerations(tier):
     yield "registration-orders", _sweep()
+
+
+def prebuild(tier):
+    fuzz.prebuild("c01", (1,))
+
+
+def campaign(tier, seed, nworkers):
+    """coverage-guided byte-level search with the streaming C01 monitor inside the target (world/fuzz_c01.c)"""
+    return fuzz.campaign(ID, "c01", (1,), BUDGET[tier]["fuzz_s"], seed, nworkers, max_len=800)
+
+
+replay_artifact = fuzz.replay_artifact
 
 
 def minimise(case, W, sig):
